@@ -169,13 +169,14 @@ def run_scenario(case, preempt=None):
                 return v
             return type('C' + modname, (Readable,), {
                 'a': Parameter('a', IntRange(), default=0), 'b': Parameter('b', IntRange(), default=0),
-                'hid': Parameter('hidden', IntRange(), default=0, export=False), 'read_a': read_a, 'read_b': read_b})
+                'hid': Parameter('hidden', IntRange(), default=0, export=False), 'read_a': read_a, 'read_b': read_b,
+                'k': Parameter('a constant (part of every snapshot like any parameter)', IntRange(), constant=7)})
         kit = Kit({'m0': {'cls': mk('m0'), 'description': 'm0'}, 'm1': {'cls': mk('m1'), 'description': 'm1'},
                    'm0x': {'cls': mk('m0x'), 'description': 'm0x'}},
                   # (a description making the reply to 'describe' a line of more than 8 kB, if asked for)
                   description='generated node' + ' with a long description' * (400 if case.get('long_description') else 0))
         for mname, mobj in kit.modules.items():
-            for pname in ('a', 'b', 'hid', 'value', 'status', 'pollinterval'):
+            for pname in ('a', 'b', 'k', 'hid', 'value', 'status', 'pollinterval'):
                 def cb(*args, mname=mname, pname=pname):
                     val = args[0] if len(args) == 1 else ('error', type(args[1]).__name__, str(args[1]))
                     out['truth'].append((dsched.sched().steps, mname, pname, val))
@@ -294,7 +295,7 @@ def check(ctx, case, preempt=None):
         ctx.finding('driver-update-raises', sub, repr(out['driver_errors'])[:300])
         return
     truth = out['truth']       # (step, mod, pname, value)
-    exported = {(m, p) for m in ('m0', 'm1', 'm0x') for p in ('a', 'b', 'value', 'status', 'pollinterval')}
+    exported = {(m, p) for m in ('m0', 'm1', 'm0x') for p in ('a', 'b', 'k', 'value', 'status', 'pollinterval')}
     racing = False
     for ci, script in enumerate(case['conns']):
         msgs = parse(out['logs'][f'c{ci}'])
@@ -335,7 +336,7 @@ def check(ctx, case, preempt=None):
                     if same(tval, val):
                         idx = j
                 if idx is None:
-                    initial = val in (0, 0.0) or action == 'error_update' or key[1] in ('value', 'status', 'pollinterval')
+                    initial = val in (0, 0.0) or action == 'error_update' or key[1] in ('value', 'status', 'pollinterval') or (key[1] == 'k' and val == 7)
                     if not initial:
                         ctx.finding('update-never-held-by-cache', sub, f'conn {ci}: {spec} {val!r}; cache states {states!r}')
                         return
